@@ -23,6 +23,10 @@ StatelessOK ==
          /\ \A a \in Params : MinApproval(a, v) = "drift" => MinApproval(a, Raise(v, i)) = "drift"
          /\ \A a \in Params, c \in Params : OrderedApproval(a, c, v) = "drift" => OrderedApproval(a, c, Raise(v, i)) = "drift"
 ASSUME StatelessOK
+(* the counter step used by the Apalache inductive check (Apa_Confirmed.tla) is the one of Election.tla *)
+ApaNextCnt(k, s, W) == LET raw == IF s = "drift" /\ k = 0 THEN 1 ELSE IF s = "warning" THEN k ELSE IF k # 0 THEN k + 1 ELSE k
+                       IN IF raw > W THEN 0 ELSE raw
+ASSUME \A W \in 0..4, k \in 0..4, s \in States : k <= W => ApaNextCnt(k, s, W) = ConfNext(W, <<k>>, <<s>>)[1]
 
 (* ---- ConfirmedElection as a state machine ---- *)
 VARIABLES n, sens, wait, cnt, left, verdict
